@@ -548,7 +548,9 @@ func ruleKaitai(r *Report) {
 		sc := gk.Types.Scope()
 		for _, n := range sc.Names() {
 			if strings.HasPrefix(n, "RecordioV4_Compression__") {
-				if c, ok := sc.Lookup(n).(interface{ Val() interface{ String() string } }); ok {
+				if c, ok := sc.Lookup(n).(interface {
+					Val() interface{ String() string }
+				}); ok {
 					_ = c
 				}
 			}
